@@ -191,6 +191,21 @@ def chunk_model_check(fm, data, leaves, rgs, fn=None):
                         raw = fmtlib.CODECS[codec][1](pl, p["uncompressed_page_size"])
                         dtbl.append([bytes([codec]) + pl, raw])
                     real_raws.append(raw)
+            # (a0) file level (Impl/WFile.w_cmd, C02_fp_write_file_valid_partial): the ColumnMetaData write_column recorded are those of
+            #      the pos/diff bookkeeping model over the pages really written, from the real chunk start
+            try:
+                kinds = {2: 0, 0: 1, 3: 2}
+                psx = [[kinds[p["type"]], p["header_len"], p["compressed_page_size"], p["uncompressed_page_size"],
+                        p.get("num_values", 0) or 0, p.get("encoding", 0) or 0] for p in pages]
+                bk = fm.pq.call("wr_bookkeeping", start, sum(p.get("num_values", 0) or 0 for p in pages if p["type"] in (0, 3)),
+                                [int(e) for e in (m.encodings or [])], psx)
+                real = [m.num_values, m.data_page_offset, ([] if m.dictionary_page_offset is None else [m.dictionary_page_offset]),
+                        m.total_compressed_size, m.total_uncompressed_size]
+                out["bk"] = out.get("bk", 0) + 1
+                if [bk[0], bk[1], list(bk[2]), bk[3], bk[4]] != real:
+                    out.setdefault("bk_bad", []).append("column %s chunk at %d: bookkeeping model %r, ColumnMetaData %r" % (l["name"], start, bk[:5], real))
+            except Exception as e:      # noqa
+                out.setdefault("bk_bad", []).append("harness: %s: %s" % (type(e).__name__, e))
             # (b) the reader model with the shortcuts on the real bytes
             st = m.statistics
             skip = 1 if (st is not None and getattr(st, "null_count", 1) == 0) else 0
@@ -322,6 +337,8 @@ def check_dataset(path, df, spec, o, fm):
                                                  "reader_bad": [], "cat_chunks": 0, "cat_read": 0, "cat_real": 0})
             for k in ("chunks", "bytes_equal", "raw_equal", "reader", "cat_chunks", "cat_read", "cat_real"):
                 acc[k] += cm.get(k, 0)
+            acc["bk"] = acc.get("bk", 0) + cm.get("bk", 0)
+            acc.setdefault("bk_bad", []).extend(cm.get("bk_bad", [])[:2])
             acc["differ"].extend(cm["differ"][:2])
             acc["reader_bad"].extend(cm["reader_bad"][:2])
         except Exception as e:    # noqa
@@ -756,6 +773,7 @@ def run(ctx):
     ctx.trusted = TRUSTED
     ctx.coq_file(os.path.join(C.COQ, "props", "C02.v"))
     ctx.coq_file(os.path.join(C.COQ, "props", "C02_pages.v"))      # every page kind of the writer through the specification decoder
+    ctx.coq_file(os.path.join(C.COQ, "props", "C02_file.v"))       # the whole file of the writer model: dec_file / valid_file
     bad = C.hygiene()
     ctx.obligation("hygiene: no Admitted/Axiom/Parameter/... in coq/", not bad, "; ".join(bad))
     C.shadow()
@@ -815,6 +833,9 @@ def run(ctx):
             cmw["differ"] += len(cm["differ"])
             if cm["differ"] and not cmw["first"]:
                 cmw["first"] = cm["differ"][0]
+            if not known and cm.get("bk"):
+                ctx.correspondence("ColumnMetaData of every real chunk = Format/ChunkLayout.wr_bookkeeping over the pages written (Impl/WFile.w_cmd)",
+                                   case, "equal", "equal" if not cm.get("bk_bad") else cm["bk_bad"][0])
             if not known and cm["reader"]:
                 ctx.correspondence("reader model with the selfmade shortcuts (Impl/RSelf.rd_chunk_sm, C01_chunk_roundtrip_partial) on "
                                    "the chunks write_column wrote = specification decoder", case,
